@@ -225,7 +225,7 @@ func genLin(t *rapid.T) LinCase {
 }
 
 func TestC13Linearizable(t *testing.T) {
-	n := rec.Scale(1500, 60000)
+	n := rec.Scale(1500, 300000)
 	g := rapid.Custom(genLin)
 	for i := 0; i < n; i++ {
 		c := g.Example(int(ev.Seed())*7000003 + i)
